@@ -355,3 +355,21 @@ package resources
 //@   loop 1: invariant r != nil && smaller != nil && (old(r) != nil ==> r == old(r)) && (old(smaller) != nil ==> smaller == old(smaller)) && (old(r) == nil ==> r == Zero) && (old(smaller) == nil ==> smaller == Zero)
 //@   loop 1: invariant forall t Key :: seen(t) && has(smaller, t) ==> rv(smaller, t) <= rv(r, t)
 //@   loop 1: invariant forall t Key :: seen(t) ==> has(r, t)
+
+//@ func ParseVCore(value string) (q Quantity, err error)
+//@   props C15
+//@   trusted "quantity string parsing (regexp, big integers): result value not specified here; writes nothing"
+//@   assigns nothing
+//@ func ParseQuantity(value string) (q Quantity, err error)
+//@   props C15
+//@   trusted "quantity string parsing (regexp, big integers): result value not specified here; writes nothing"
+//@   assigns nothing
+
+// the resource built from a configuration map is a fresh object: building it cannot disturb any existing resource
+//@ func NewResourceFromConf(configMap map[string]string) (res *Resource, err error)
+//@   props C15
+//@   sweep
+//@   mode nopanic=off
+//@   assigns nothing
+//@   ensures err == nil ==> fresh(res) && fresh(res.Resources) && res.Resources != nil
+//@   ensures err != nil ==> res == nil
